@@ -36,17 +36,41 @@ fn set_hash(ids: &[u64]) -> u64 {
     s.iter().fold(17, |h, i| mix(h, *i))
 }
 
+/// one presentation of a set: shuffled (mostly), or already in hierarchical / numeric / reverse order; with duplicated
+/// elements, which in the ordered presentations sit next to their originals
 fn present(rng: &mut Rng, set: &[MCell]) -> Vec<u64> {
-    let mut ids: Vec<u64> = set.iter().map(|c| encode(*c)).collect();
-    let n = ids.len();
+    let mut cells: Vec<MCell> = set.to_vec();
+    let n = cells.len();
     if n > 0 {
         for _ in 0..rng.below(1 + (n as u64) / 3) {
-            let d = ids[rng.usize(n)];
-            ids.push(d);
+            let d = cells[rng.usize(n)];
+            cells.push(d);
         }
     }
-    rng.shuffle(&mut ids);
-    ids
+    match rng.below(10) {
+        0 | 1 => {
+            // hierarchical order: by (position interval at the finest resolution, resolution) = ancestors before descendants
+            let r = cells.iter().map(|c| c.res).max().unwrap_or(1).max(1);
+            cells.sort_by_key(|c| (leaf_interval(*c, r).0, c.res));
+            cells.iter().map(|c| encode(*c)).collect()
+        }
+        2 => {
+            let mut ids: Vec<u64> = cells.iter().map(|c| encode(*c)).collect();
+            ids.sort_unstable();
+            ids
+        }
+        3 => {
+            let mut ids: Vec<u64> = cells.iter().map(|c| encode(*c)).collect();
+            ids.sort_unstable();
+            ids.reverse();
+            ids
+        }
+        _ => {
+            let mut ids: Vec<u64> = cells.iter().map(|c| encode(*c)).collect();
+            rng.shuffle(&mut ids);
+            ids
+        }
+    }
 }
 
 /// C08 oracle on one presentation of a set
